@@ -872,3 +872,60 @@ def contracts():
     c = _c12.self_or_cls_contract()
     c.prop = "C01"
     return _c01_base_soc() + [c]
+
+
+# ---------------------------------------------------------------------------------------------
+# concrete probe: a value that reaches a parameter through a REFERENCE is held to the same constraints,
+# in the constructor and afterwards
+# ---------------------------------------------------------------------------------------------
+REF_VALUES_REPLAY = '''import sys, os, itertools, math
+sys.path.insert(0, os.environ.get('PYVC_REPO', '/repo'))
+import param
+bad = []
+class Src(param.Parameterized):
+    v = param.Parameter()
+CASES = [('Number(bounds=(0, 10))', lambda: param.Number(1, bounds=(0, 10), allow_refs=True), [5, 0, 10], [11, -1, float('nan'), 'x', None]),
+         ('Number(bounds=(0, 10), inclusive_bounds=(True, False))', lambda: param.Number(1, bounds=(0, 10), inclusive_bounds=(True, False), allow_refs=True), [0, 9.5], [10]),
+         ('Integer(bounds=(0, 3))', lambda: param.Integer(1, bounds=(0, 3), allow_refs=True), [3], [4, 1.5]),
+         ('String(regex=^a)', lambda: param.String('ab', regex='^a', allow_refs=True), ['abc'], ['ba', 3]),
+         ('List(bounds=(0, 2))', lambda: param.List([], bounds=(0, 2), allow_refs=True), [[1, 2]], [[1, 2, 3], (1,)]),
+         ('Selector([1, 2])', lambda: param.Selector(objects=[1, 2], allow_refs=True), [2], [3])]
+for label, mk, good, wrong in CASES:
+    for kind in ('parameter', 'bind', 'rx'):
+        def ref(value):
+            s = Src(v=value)
+            if kind == 'parameter':
+                return s, s.param.v
+            if kind == 'bind':
+                return s, param.bind(lambda v: v, s.param.v)
+            return s, s.param.v.rx()
+        T = type('T', (param.Parameterized,), {'p': mk()})
+        for value in good:
+            s, r = ref(value)
+            try:
+                t = T(p=r)
+            except Exception as e:
+                bad.append('%s given a %s reference to the valid value %r in the constructor raised %r' % (label, kind, value, e)); continue
+            if t.p != value:
+                bad.append('%s given a %s reference to %r in the constructor holds %r' % (label, kind, value, t.p))
+        for value in wrong:
+            s, r = ref(value)
+            for route in ('constructor', 'assignment'):
+                try:
+                    if route == 'constructor':
+                        t = T(p=r)
+                    else:
+                        t = T(); t.p = r
+                except (ValueError, TypeError):
+                    continue
+                except Exception as e:
+                    bad.append('%s given a %s reference to the invalid value %r (%s) raised %r' % (label, kind, value, route, e)); continue
+                held = t.p
+                if held is value or held == value or (isinstance(value, float) and math.isnan(value) and isinstance(held, float) and math.isnan(held)):
+                    bad.append('%s: the invalid value %r reached the parameter through a %s reference given by %s' % (label, value, kind, route))
+if bad:
+    print('REPRODUCED: ' + bad[0]); sys.exit(1)
+print('NOT-REPRODUCED'); sys.exit(0)
+'''
+
+PROBES = [("a value arriving through a reference is held to the parameter's constraints", REF_VALUES_REPLAY)]
